@@ -3,6 +3,7 @@ CONSTANTS Agents = {"a1","a2"}
  NSteps = 1
  AllowCrash = TRUE
  FixStatus = TRUE
+ BindFailUnlinks = FALSE
  ExclusiveBind = TRUE
 INVARIANTS C08_NoError
 CHECK_DEADLOCK FALSE
